@@ -214,6 +214,8 @@ def main():
     ap.add_argument("--only", default="")
     ap.add_argument("--max-per-fn", type=int, default=60)
     ap.add_argument("--out", default="/tmp/mutation_survivors.json")
+    ap.add_argument("--unconsulted", action="store_true",
+                    help="mutate the functions of the anchor files that NO rule consults")
     ap.add_argument("--from-survivors", default="",
                     help="re-run only the survivors recorded in this earlier result file")
     ap.add_argument("--skip-c10-only", action="store_true",
@@ -225,6 +227,14 @@ def main():
         ev = json.load(open(os.path.join(HERE, "evidence", f"{p}.json")))
         for q in ev["coverage"]["analysed"]["functions_consulted"]:
             consulted.setdefault(q, []).append(p)
+    if args.unconsulted:
+        anchor_files = set()
+        for line in open(os.path.join(HERE, "properties.jsonl")):
+            anchor_files |= set(json.loads(line)["anchors"]["files"])
+        consulted = {q: [] for q, fi in repo.functions.items()
+                     if fi.module.relpath in anchor_files and q not in consulted
+                     and "<locals>" not in q and not fi.name.startswith("__repr")
+                     and not fi.name.startswith(("plot_", "_repr_", "__str__"))}
     tasks = []
     for q, props in sorted(consulted.items()):
         if args.only and args.only not in q:
